@@ -22,6 +22,7 @@ CONSTANTS
   SeekOffs = {{0}}
   TW = 8
   TH = 6
+  Terms = {{}}
   MaxDepth = 1
 INVARIANT Report
 CHECK_DEADLOCK FALSE
@@ -57,8 +58,19 @@ def _gen_padding(rng):
     return {"kind": "aligned", "w": -rng.randrange(0, 4), "h": rng.choice([-3, -2, -1, 0, 3]), "ha": rng.randrange(3), "va": rng.randrange(3)}
 
 
+_resized = [False]
+
+
 def gen_op(rng, n, closed):
     roll = rng.random()
+    if _resized[0] and rng.random() < 0.6:
+        # a set_padding() after a resize must see the NEW terminal size
+        _resized[0] = False
+        return {"name": "set_padding", "v": {"kind": "aligned", "w": -rng.randrange(0, 4), "h": rng.choice([-3, -2, -1, 0]),
+                                             "ha": rng.randrange(3), "va": rng.randrange(3)}}
+    if rng.random() < 0.05:
+        _resized[0] = True
+        return {"name": "resize", "v": rng.choice([[8, 6], [5, 4], [12, 3], [3, 9]])}
     if n and rng.random() < 0.12:
         # revisit: go back to an early frame (cached iterators must notice changed settings)
         return {"name": "seek", "off": rng.randrange(0, min(n, 3)), "whence": "START"}
@@ -98,6 +110,8 @@ def record(rng: random.Random, pair: bool):
         cache = {"kind": "int", "b": False, "n": max(1, (n or 2) + rng.choice([-1, 0, 1, 50]))}
     own = rng.choice(["iter", "iter", "caller"])
     init = {"n": n, "k": k, "loops": loops, "cache": cache, "own": own}
+    iterkit.set_terminal()
+    _resized[0] = False
     it = _make(init, cache_arg=cache)
     shadow = _make(init, cache_arg={"kind": "bool", "b": False, "n": 0}) if pair else None
     events = []
